@@ -79,7 +79,7 @@ def size_class(n):
 
 
 def replay(ctx, cases, variant):
-    srcs = [os.path.join(CDRV, f) for f in ("c14_main.c", "c14_crc32.c", "c14_crc64.c")]
+    srcs = [os.path.join(CDRV, f) for f in ("c14_main.c", "c14_crc32.c", "c14_crc64.c", "c14_small.c")]
     exe = build.cprog("c14_drv", srcs, variant)
     txt = "\n".join(case_line(c) for c in cases) + "\n"
     e = dict(os.environ); e.pop("LD_PRELOAD", None)
